@@ -234,6 +234,62 @@ def _chunk(params, lo, hi):
     return r
 
 
+LARGE_FUNCS = ("floyd_warshall", "dijkstra_edges", "bellman_ford", "kruskal", "bfs_edges", "dfs_edges", "strongly_connected_components_edges", "topological_sort_edges", "pagerank_edges")
+
+
+def large_cases():
+    """(function, n, edges) over larger structured graphs: the digraphs of C11's large family, the undirected ones of C13's
+    (read as directed arc lists where the function is directed), a 7-node kruskal instance per union order"""
+    from checks import c11, c13
+
+    gs = [(nm, n, [tuple(e) for e in es]) for nm, n, es in c11.large_graphs()] + [(nm, n, [tuple(e) for e in es]) for nm, n, es in c13.large_graphs()]
+    gs.append(("kruskal_rank_merge_7", 7, [(0, 1, 1), (2, 3, 2), (0, 2, 3), (4, 5, 4), (1, 5, 5), (4, 2, 6), (6, 0, 7)]))
+    gs.append(("kruskal_rank_merge_9", 9, [(1, 0, 1), (3, 2, 2), (5, 4, 3), (7, 6, 4), (3, 1, 5), (7, 5, 6), (7, 3, 7), (8, 6, 8), (2, 8, 9)]))
+    out = []
+    for nm, n, es in gs:
+        for f in LARGE_FUNCS:
+            out.append((f, nm, n, es))
+    return out
+
+
+def _large_chunk(params, lo, hi):
+    import solvor
+    from solvor.rust import rust_available
+
+    if not rust_available():
+        raise HarnessError("the Rust extension did not load from the overlay (C12 cannot run)")
+    cases = large_cases()
+    r = new_result()
+    for idx in range(lo, hi):
+        fname, nm, n, es = cases[idx]
+        fn = getattr(solvor, fname)
+        weighted = fname in ("floyd_warshall", "dijkstra_edges", "bellman_ford", "kruskal")
+        edges = list(es) if weighted else [(u, v) for u, v, _ in es]
+        if fname == "floyd_warshall":
+            for directed in (True, False):
+                run_case(r, fname, fn, (n, edges), {"directed": directed}, n, edges)
+        elif fname == "bellman_ford":
+            for s in (0, n - 1):
+                for t in (None, n // 2):
+                    run_case(r, fname, fn, (s, edges, n), {"target": t, "start": s}, n, edges)
+        elif fname in ("dijkstra_edges", "bfs_edges", "dfs_edges"):
+            for s in (0, n - 1):
+                for t in (None, n // 2):
+                    run_case(r, fname, fn, (n, edges, s), {"target": t, "source": s}, n, edges)
+        elif fname == "kruskal":
+            for af in (False, True):
+                run_case(r, fname, fn, (n, edges), {"allow_forest": af}, n, edges)
+                run_case(r, fname, fn, (n, [(v, u, w) for u, v, w in edges]), {"allow_forest": af}, n, [(v, u, w) for u, v, w in edges])
+        elif fname == "pagerank_edges":
+            run_case(r, fname, fn, (n, edges), {"damping": 0.85, "max_iter": 100}, n, edges)
+        else:
+            run_case(r, fname, fn, (n, edges), {}, n, edges)
+        if len(r["violations"]) >= 40 or too_many_hangs():
+            r["capped"] = True
+            break
+    return r
+
+
 def _strip(kw):
     return {k: v for k, v in kw.items() if k not in ("source", "start")}
 
@@ -250,6 +306,7 @@ def jobs(tier, seed):
         tag = "" if not weights else ("_neg" if min(weights) < 0 else "_w" + "".join(map(str, weights)))
         js.append(Job(f"{fname}_n{n}_len{L}{tag}", nopt**L, _chunk, (fname, n, L, weights), describe=f"all ordered edge lists of {L} edges on {n} nodes" + (f", weights {weights}" if weights else "")))
 
+    js.append(Job("large_structured", len(large_cases()), _large_chunk, None, chunk=4, describe="the nine functions on the larger structured graphs of C11 and C13 (chains of 40, grids, complete graphs on 9-13 nodes, 70-node path and cycle) and two kruskal instances whose unions merge rank-2 trees through non-root members"))
     th = tier == "thorough"
     for fname, weights in (("floyd_warshall", W), ("dijkstra_edges", W), ("kruskal", W)):
         for L in (0, 1, 2, 3):
